@@ -3,6 +3,9 @@
 set -e
 cd "$(dirname "$0")"
 command -v clang >/dev/null && command -v clang++ >/dev/null && command -v python3 >/dev/null
+# build variants and ambient targets: gcc (gcc variant), lld + llvm-ar-14 (cfi variant), localedef (locale-tr), valgrind (vg), libbsd (altconf)
+for tool in gcc ld.lld llvm-ar-14 localedef valgrind; do command -v $tool >/dev/null || { echo "setup: $tool is missing" >&2; exit 2; }; done
+test -f /usr/include/bsd/string.h || { echo "setup: libbsd overlay headers are missing" >&2; exit 2; }
 echo 'int main(){return 0;}' > .setup-probe.cpp
 clang++ -std=gnu++17 .setup-probe.cpp -lrapidcheck -o .setup-probe && rm -f .setup-probe .setup-probe.cpp
 ./check --build-only
